@@ -2,9 +2,13 @@
  * The format string lives in an EXACT-SIZE heap object that is NOT NUL-terminated: any look-ahead beyond the view is a
  * bounds violation (CBMC pointer checks; ASan in the native replay).  UB assertions come from ir2c --ub-checks,
  * termination from the unwinding assertions; a stop through the assertion hook is admissible. */
-#define VP_PANIC_STOP
 #include "vp.h"
+/* VP_PANIC_STOP of vp.h (a stop through the library's assertion hook is admissible), plus a reachability witness for it */
+int vp_stopped;
+void frg_panic(uint8_t *m) { (void)m; VP_WITNESS(0, "stop through the assertion hook"); vp_stopped = 1; VP_STOP(); }
+void ir2c_trap_hook(void) { vp_stopped = 1; VP_STOP(); }
 #include "c20_fmt.h"
+#include "c20_cases.h"
 #ifndef VP_NATIVE
 void *malloc(__CPROVER_size_t);
 #endif
@@ -66,6 +70,19 @@ void harness_width(void) {
 	}
 	buf[k++] = '}';
 	c20_call(buf, D + 3);
+}
+
+/* (3) concrete format strings of realistic length in exact-size buffers (single path, everything folds) */
+#ifndef CASE
+#define CASE 0
+#endif
+void harness_concrete(void) {
+	const char *f = c20_fmt_cases[CASE];      /* table generated from props/C20.py (c20_cases.h) */
+	int len = 0; while(f[len]) len++;
+	int dummy; VP_INPUT(dummy);
+	uint8_t *buf = (uint8_t *)malloc(len);
+	for(int i = 0; i < len; i++) buf[i] = (uint8_t)f[i];
+	c20_call(buf, (uint64_t)len);
 }
 
 /* translator validation: strings over the syntactically relevant alphabet inside a PADDED buffer (compares the two builds) */
